@@ -236,7 +236,7 @@ def gen_value(rnd, ty, fam, envd, p_poly, depth=0):
     if t == "ref":
         cn = ty["cls"]
         subs = descendants(fam, cn)
-        if subs and rnd.random() < p_poly:
+        if subs and depth < 3 and rnd.random() < p_poly:     # (a subclass may refer back to its base class: bounded)
             cn = rnd.choice(subs)
         return gen_inst(rnd, cn, fam, envd, p_poly, depth + 1)
     if t == "opt":
